@@ -523,7 +523,7 @@ func localSignerCases(r *core.Run) {
 }
 
 func run(r *core.Run) int {
-	r.Rule = "valid base requests (2 formats x local/remote signer x 6 key specs x 2 schemes) x ~80 invalidating changes: singles for every base (each also on an envelope object that has signed a valid request before), ordered pairs for the P-256 bases (thorough: all EC bases, RSA sampled); controls (no change, times on the inclusive validity bounds, expiry one second later, sub-second times that stay ordered after truncation, plain attributes) must succeed. " +
+	r.Rule = "valid base requests (2 formats x local/remote signer x 6 key specs x 2 schemes) x ~80 invalidating changes: singles for every base (each also on an envelope object that has signed a valid request before), ordered pairs for the P-256 bases and a sample for the others (thorough: for every base); controls (no change, times on the inclusive validity bounds, expiry one second later, sub-second times that stay ordered after truncation, plain attributes) must succeed. " +
 		"non-trivial = the request carries at least one invalidating change; distinct by descriptor"
 	r.Assume("an invalidating change applied last stays invalidating whatever was applied before it; the one pair of changes that repair each other (signer key and chain leaf both swapped to the same other key) is excluded")
 	var cases []*Case
@@ -546,7 +546,7 @@ func run(r *core.Run) int {
 	}
 	rng := r.Rand("pairs")
 	for _, b := range bs {
-		full := b.Kind == "p256" || (!r.Quick() && (b.Kind == "p384" || b.Kind == "p521"))
+		full := b.Kind == "p256" || !r.Quick()
 		keep := 0
 		if !full {
 			keep = r.Pick(60, 12)
